@@ -12,7 +12,7 @@ by a rejected offer - Retrieve keeps ONE share hash tree for all shares of a rea
 all segments, so whatever a rejected forged share leaves behind is what the next shares are compared with (C10.14.*,
 the set_hashes rules of C35)."""
 from sa.h import *
-from sa.cfg import reaching_defs, PARAM_DEF
+from sa.cfg import reaching_defs, PARAM_DEF, node_exprs
 
 EXPLANATION = (
     "Decided (structural, all paths): (1) ServermapUpdater._try_to_set_pubkey installs a verification key only "
@@ -25,7 +25,12 @@ EXPLANATION = (
     "own versioninfo; (5) the reader's verinfo fields are all packed into the signed prefix it carries; "
     "(6) Retrieve._validate_block returns {shnum:(block,salt)} only after the block-hash leaf "
     "block_hash(salt+block | block) at index segnum and the share-hash leaf bht[0] at index shnum were accepted, "
-    "MDMF hashes salt+block, hash failures raise; (7) the share hash tree root is verinfo root_hash and the "
+    "MDMF hashes salt+block, hash failures raise - each of the two set_hashes calls may be written in _validate_block or "
+    "made by a helper it calls (followed through the call graph, arguments bound to the helper's parameters): the helper "
+    "must make the call, with the leaf it was given, on every normal path through it, and the helper call itself must lie "
+    "on every path to the return (a guard may skip the extra `hashes`, never the leaf; a call in the short-circuited arm "
+    "of and/or or of a conditional expression does not count); a helper whose set_hashes arguments cannot be traced to "
+    "its parameters gives ANALYSIS-ERROR, not a verdict; (7) the share hash tree root is verinfo root_hash and the "
     "trees are bound only in _setup_download; (8) _decode_blocks is fed only the gathered _validate_block outputs, "
     "_handle_bad_share yields None (a None entry makes _decode_blocks raise, i.e. an error, so the 'None in results' "
     "test itself is not demanded); consumer.write only in _set_segment on the chain "
@@ -46,7 +51,8 @@ EXPLANATION = (
     "Deferred, by an errback that traps struct.error and re-raises a BadShareError subclass (or the unpack sits in a try "
     "whose handler does), the conversion errback really does that, and no public reader method can raise struct.error "
     "synchronously; (14, rule C10.13) Retrieve._handle_bad_share's trap includes BadShareError and every exception raised explicitly "
-    "in MDMFSlotReadProxy and Retrieve._validate_block is a package class derived from a trapped class. "
+    "in MDMFSlotReadProxy, Retrieve._validate_block and the hash-tree update helpers _validate_block calls is a package class "
+    "derived from a trapped class. "
     "(15, rules C10.14.*, shared with C35) the gates of (6) are only as good as IncompleteHashTree.set_hashes, and "
     "Retrieve feeds every share of a read into the same share_hash_tree (and every segment of a share into the same "
     "block hash tree), with hash numbers and hashes chosen by the server: every store into the tree made by a call is "
@@ -567,6 +573,201 @@ def _reg_runs(reg, name):
     return _name_tail(t) == name
 
 
+# ---- hash-tree updates made by a CFG node, directly or through helpers (C10.6) ---------------------------------
+def _always_evaluated(n, call):
+    """`call` is evaluated whenever node n is evaluated: it does not sit in the short-circuited operand of and/or, in a
+    branch of a conditional expression, in a comprehension element / lambda body.  -> (yes, awaited-or-yielded)"""
+    par = {}
+    for e in node_exprs(n):
+        for x in ast.walk(e):
+            for ch in ast.iter_child_nodes(x):
+                par[id(ch)] = x
+    cur = call
+    waited = isinstance(par.get(id(call)), (ast.Await, ast.Yield, ast.YieldFrom))
+    while id(cur) in par:
+        p = par[id(cur)]
+        if isinstance(p, ast.BoolOp) and p.values[0] is not cur:
+            return False, waited
+        if isinstance(p, ast.IfExp) and p.test is not cur:
+            return False, waited
+        if isinstance(p, (ast.Lambda, ast.ListComp, ast.SetComp, ast.DictComp, ast.GeneratorExp, ast.comprehension)):
+            return False, waited
+        cur = p
+    return True, waited
+
+
+class _TreeUpdates:
+    """Which IncompleteHashTree.set_hashes calls a CFG node has made when it is left normally - written at the node, or
+    made by a helper the node calls (resolved through the call graph; every candidate callee must make the call on every
+    normal path through it, and the receiver / hashes / leaves expressions it uses are translated back into the caller's
+    expressions through the argument binding).  Expressions that cannot be traced to the helper's parameters are
+    remembered in .undecided (the caller turns a resulting alarm into ANALYSIS-ERROR)."""
+    MAXDEPTH = 3
+
+    def __init__(self, idx, cg):
+        self.idx = idx
+        self.cg = cg
+        self._reach = {}
+        self._flow = {}
+        self._locals = {}
+        self.undecided = []
+        self.states = 0
+
+    def flow(self, g):
+        if g.qual not in self._flow:
+            self._flow[g.qual] = FlowNorm(g)
+        return self._flow[g.qual]
+
+    def locals_of(self, g):
+        if g.qual not in self._locals:
+            self._locals[g.qual] = set(all_defs(g)) | set(g.params)
+        return self._locals[g.qual]
+
+    def reaches(self, f, depth=0):
+        """f may call set_hashes, itself or through package functions it calls"""
+        if f.qual in self._reach:
+            return self._reach[f.qual]
+        self._reach[f.qual] = False
+        res = bool(calls_in_func(f, "set_hashes"))
+        if not res and depth < self.MAXDEPTH:
+            for c in calls_in_func(f):
+                if any(g.qual != f.qual and self.reaches(g, depth + 1) for g in self.cg.resolve(f, c)):
+                    res = True
+                    break
+        self._reach[f.qual] = res
+        return res
+
+    def bind(self, f, g, c):
+        """parameter name of g -> argument expression (in f's terms) for the call c made in f; None: not decidable"""
+        a = g.node.args if isinstance(g.node, (ast.FunctionDef, ast.AsyncFunctionDef)) else None
+        if a is None or a.vararg or a.kwarg or any(isinstance(x, ast.Starred) for x in c.args) \
+                or any(k.arg is None for k in c.keywords):
+            return None
+        for d in g.node.decorator_list:
+            if _name_tail(d.func if isinstance(d, ast.Call) else d) in ("staticmethod", "classmethod", "property"):
+                return None
+        pos = [x.arg for x in a.posonlyargs + a.args]
+        dflt = dict(zip(reversed(pos), reversed(a.defaults)))
+        for x, d in zip(a.kwonlyargs, a.kw_defaults):
+            if d is not None:
+                dflt[x.arg] = d
+        names = pos + [x.arg for x in a.kwonlyargs]
+        out = {}
+        if g.cls is not None:
+            if not (isinstance(c.func, ast.Attribute) and isinstance(c.func.value, ast.Name) and c.func.value.id == "self" and pos):
+                return None
+            out[pos[0]] = c.func.value
+            pos = pos[1:]
+        elif g.parent is not None and g.parent is not f:
+            return None             # a closure of another function: its free variables are not f's
+        if len(c.args) > len(pos):
+            return None
+        for p, x in zip(pos, c.args):
+            out[p] = x
+        for k in c.keywords:
+            if k.arg not in names or k.arg in out:
+                return None
+            out[k.arg] = k.value
+        for p in names:
+            if p not in out:
+                if p not in dflt:
+                    return None
+                out[p] = dflt[p]
+        return out
+
+    def subst(self, g, mg, expr, binding, depth=4):
+        """expr, evaluated at node mg of g, rewritten into the caller's terms; None (and a note) when it uses a local of g
+        that is not a plain function of g's parameters"""
+        if expr is None:
+            return None
+        fl = self.flow(g)
+        rd = fl.rd.get(mg.id, {})
+        env = fl.env_at(mg).defs
+        loc = self.locals_of(g)
+        ok = [True]
+        me = self
+
+        class T(ast.NodeTransformer):
+            def visit_Name(s, n):
+                if not isinstance(n.ctx, ast.Load) or n.id not in loc:
+                    return n
+                if n.id in binding and rd.get(n.id) == frozenset([PARAM_DEF]):
+                    return binding[n.id]
+                v = env.get(n.id)
+                if v is None and len(rd.get(n.id, ())) == 1:
+                    (d,) = tuple(rd[n.id])
+                    if d != PARAM_DEF:
+                        dv = fl._def_value(fl.cfg.nodes[d], n.id)
+                        if isinstance(dv, ast.Dict):
+                            v = dv
+                if v is not None and depth > 0:
+                    r2 = me.subst(g, mg, v, binding, depth - 1)
+                    if r2 is not None:
+                        return r2
+                ok[0] = False
+                return n
+        import copy
+        res = T().visit(copy.deepcopy(expr))
+        if not ok[0]:
+            self.undecided.append("%s: %s" % (short(g), src(g, expr)))
+            return None
+        return res
+
+    def made(self, f, m, test, depth=0):
+        """leaving node m of f normally implies a set_hashes call with test(receiver, hashes, leaves) true (the three
+        expressions are in f's terms, to be evaluated at m; hashes / leaves may be None = not passed)"""
+        for c in node_calls(m):
+            sure, waited = _always_evaluated(m, c)
+            if not sure:
+                continue
+            if call_tail(c) == "set_hashes" and isinstance(c.func, ast.Attribute):
+                if any(k.arg is None for k in c.keywords) or any(isinstance(x, ast.Starred) for x in c.args):
+                    continue
+                if test(c.func.value, arg(c, 0, "hashes"), arg(c, 1, "leaves")):
+                    return True
+                continue
+            if depth >= self.MAXDEPTH:
+                continue
+            cands = [g for g in self.cg.resolve(f, c) if g.qual != f.qual]
+            if not cands or not all(self.reaches(g) for g in cands):
+                continue
+            good = True
+            for g in cands:
+                gen = isinstance(g.node, ast.AsyncFunctionDef) or any(
+                    isinstance(x, (ast.Yield, ast.YieldFrom)) for x in func_own_nodes(g))
+                if gen and not waited:
+                    good = False        # a coroutine / generator that is not awaited: its body has not run (to the end)
+                    break
+                b = self.bind(f, g, c)
+                if b is None:
+                    self.undecided.append("%s: cannot bind the arguments of %s" % (short(f), src(f, c)))
+                    good = False
+                    break
+                gcfg = g.cfg()
+                memo = {}
+
+                def gate(mg, _g=g, _b=b):
+                    if mg.id not in memo:
+                        def test_g(recv, hs, lv, _mg=mg):
+                            r2 = self.subst(_g, _mg, recv, _b)
+                            if r2 is None:
+                                return False
+                            h2 = self.subst(_g, _mg, hs, _b) if hs is not None else None
+                            l2 = self.subst(_g, _mg, lv, _b) if lv is not None else None
+                            if (hs is not None and h2 is None) or (lv is not None and l2 is None):
+                                return False
+                            return test(r2, h2, l2)
+                        memo[mg.id] = self.made(_g, mg, test_g, depth + 1)
+                    return memo[mg.id]
+                self.states += len(gcfg.nodes)
+                if find_path_avoiding(gcfg, lambda x: x.kind == "exit", gate_node=gate):
+                    good = False
+                    break
+            if good:
+                return True
+        return False
+
+
 def run(ctx: Context):
     idx = ctx.idx
     cg = get_callgraph(idx)
@@ -824,15 +1025,36 @@ def run(ctx: Context):
             raise AnchorVanished("no value return in _validate_block")
         BHT = "self._block_hash_trees[%s.shnum]" % p_reader
 
-        def leaf_call(m, recv_norm):
-            """set_hashes call at node m on receiver recv_norm with a one-entry leaves dict -> (call, key, value)"""
-            for c in calls_at(m, "set_hashes"):
-                if fnorm.norm(m, c.func.value) != recv_norm:
-                    continue
-                lv = kwarg(c, "leaves") or arg(c, 1)
-                if isinstance(lv, ast.Dict) and len(lv.keys) == 1:
-                    return c, lv.keys[0], lv.values[0]
-            return None
+        tu = _TreeUpdates(idx, cg)
+        if not tu.reaches(fn):
+            raise AnchorVanished("Retrieve._validate_block no longer calls set_hashes (neither itself nor through a helper)")
+
+        def leaf_set(m, recv_norm, kv_ok):
+            """leaving node m normally implies a set_hashes call - at m, or in a helper m calls, on every normal path
+            through the helper - on the tree recv_norm with a one-entry leaves dict {k: v} for which kv_ok(k, v)"""
+            def test(recv, _hs, lv):
+                if lv is None or fnorm.norm(m, recv) != recv_norm:
+                    return False
+                if isinstance(lv, ast.Name):
+                    ds = _defs_at(fn, m, lv.id)
+                    if len(ds) == 1 and isinstance(ds[0], ast.Dict):
+                        lv = ds[0]
+                if not (isinstance(lv, ast.Dict) and len(lv.keys) == 1 and lv.keys[0] is not None):
+                    return False
+                return kv_ok(lv.keys[0], lv.values[0])
+            return tu.made(fn, m, test)
+
+        def gated(cache, m, fnc):
+            if m.id not in cache:
+                cache[m.id] = fnc(m)
+            return cache[m.id]
+
+        def undecided(what):
+            """an alarm that rests on a helper whose arguments could not be traced is not a decision"""
+            if tu.undecided:
+                raise AnalysisError("Retrieve._validate_block: cannot decide whether %s - the hash-tree update is made by a "
+                                    "helper whose set_hashes arguments cannot be traced to its parameters (%s)" % (
+                                        what, "; ".join(sorted(set(tu.undecided))[:3])))
 
         for n in rets:
             r.site(fn, n.ast, "return")
@@ -851,11 +1073,7 @@ def run(ctx: Context):
             salt_names = {x.id for x in own_nodes(salt_e) if isinstance(x, ast.Name)}
 
             # block-hash gate
-            def bh_ok(m, _blk=blk_n, _salt=salt_n):
-                lc = leaf_call(m, BHT)
-                if not lc:
-                    return False
-                c, k, val = lc
+            def bh_kv(m, k, val, _blk=blk_n, _salt=salt_n):
                 if fnorm.norm(m, k) != p_segnum:
                     return False
                 cands = _defs_at(fn, m, val.id) if isinstance(val, ast.Name) else [val]
@@ -874,21 +1092,31 @@ def run(ctx: Context):
                     if data not in (_blk, norm_src("%s + %s" % (_salt, _blk))):
                         return False
                 return True
-            for (t, w) in find_path_avoiding(cfg, lambda x, _n=n: x is _n, gate_node=bh_ok, kill=stores_any(blk_names)):
+            bh_cache = {}
+
+            def bh_ok(m):
+                return gated(bh_cache, m, lambda x: leaf_set(x, BHT, lambda k, v: bh_kv(x, k, v)))
+            bad = find_path_avoiding(cfg, lambda x, _n=n: x is _n, gate_node=bh_ok, kill=stores_any(blk_names))
+            if bad:
+                undecided("the block hash was accepted by the share's block hash tree")
+            for (t, w) in bad:
                 r.violation(fn, fn.loc(t.ast), "a block is returned as valid without its block_hash having been accepted by the "
                             "share's block hash tree at leaf %s (path: %s)" % (p_segnum, w.brief()), w)
 
             # share-hash gate
+            sh_cache = {}
+
             def sh_ok(m):
-                lc = leaf_call(m, "self.share_hash_tree")
-                if not lc:
-                    return False
-                c, k, val = lc
-                return fnorm.norm(m, k) == p_reader + ".shnum" and fnorm.norm(m, val) == BHT + "[0]"
-            for (t, w) in find_path_avoiding(cfg, lambda x, _n=n: x is _n, gate_node=sh_ok):
+                return gated(sh_cache, m, lambda x: leaf_set(
+                    x, "self.share_hash_tree",
+                    lambda k, v: fnorm.norm(x, k) == p_reader + ".shnum" and fnorm.norm(x, v) == BHT + "[0]"))
+            bad = find_path_avoiding(cfg, lambda x, _n=n: x is _n, gate_node=sh_ok)
+            if bad:
+                undecided("the share's block-hash root was accepted by the share hash tree")
+            for (t, w) in bad:
                 r.violation(fn, fn.loc(t.ast), "a block is returned as valid without the share's block-hash root having been "
                             "accepted by the share hash tree (path: %s)" % w.brief(), w)
-            r.count(2 * len(cfg.nodes))
+            r.count(2 * len(cfg.nodes) + tu.states)
 
         # MDMF: the per-segment salt must be part of the hashed data
         mdmf_nodes = []
@@ -1670,7 +1898,8 @@ def run(ctx: Context):
 
     # -- 13. every bad-share report reaches _handle_bad_share as a type it tolerates ----------
     with ctx.rule("C10.13", "R4", "Retrieve._handle_bad_share tolerates BadShareError, and every exception raised explicitly by "
-                  "MDMFSlotReadProxy and by Retrieve._validate_block is one of the tolerated package classes", expected=15) as r:
+                  "MDMFSlotReadProxy and by Retrieve._validate_block (and the hash-tree update helpers it calls) is one of the "
+                  "tolerated package classes", expected=12) as r:
         bad_ci = idx.cls("mutable.common:BadShareError")
         hb = idx.func(RET + "._handle_bad_share")
         fp = first_positional_params(hb)[0]
@@ -1695,13 +1924,29 @@ def run(ctx: Context):
         roots = list(tolerated or [])
         vb = idx.func(RET + "._validate_block")
         pfx = idx.cls(READER).qual + "."
-        raisers = [f for f in idx.funcs.values() if f.qual.startswith(pfx)] + [vb]
+        # the validation path: _validate_block and the helpers through which it updates the hash trees (followed through
+        # the call graph) - that is where a hash mismatch becomes an exception
+        tu = _TreeUpdates(idx, cg)
+        vpath = [vb]
+        work = [(vb, 0)]
+        while work:
+            f0, d0 = work.pop()
+            if d0 >= tu.MAXDEPTH:
+                continue
+            for c in calls_in_func(f0):
+                for g in cg.resolve(f0, c):
+                    if g not in vpath and tu.reaches(g):
+                        vpath.append(g)
+                        work.append((g, d0 + 1))
+        raisers = [f for f in idx.funcs.values() if f.qual.startswith(pfx)] + vpath
         n_raise = 0
+        n_vraise = 0
         for f in raisers:
             for n in func_own_nodes(f):
                 if not isinstance(n, ast.Raise) or n.exc is None:
                     continue
                 n_raise += 1
+                n_vraise += f in vpath
                 r.site(f, n, "raise")
                 if tolerates_all:
                     continue
@@ -1710,8 +1955,8 @@ def run(ctx: Context):
                           "tolerates (%s): the read fails instead of dropping the share" % (
                               short(f), src(f, n.exc), "a subclass of what" if ci is not None else "a package exception class that",
                               ", ".join(sorted(c.name for c in roots)) or "nothing"))
-        if n_raise < 2:
-            raise AnchorVanished("raise statements in MDMFSlotReadProxy / Retrieve._validate_block")
+        if n_raise < 2 or not n_vraise:
+            raise AnchorVanished("raise statements in MDMFSlotReadProxy / Retrieve._validate_block and its hash-tree helpers")
 
     # -- 14. the hash trees behind the gates of rule 6: acceptance and rejection discipline of set_hashes -------------
     # Retrieve validates every share of a read against ONE share_hash_tree (bound once in _setup_download, C10.7) and every
@@ -1900,5 +2145,5 @@ def _need_set_hashes_user(idx):
     if not any(call_tail(c) == "IncompleteHashTree" for c in calls_in_func(sd)):
         raise AnchorVanished("Retrieve._setup_download no longer builds IncompleteHashTree objects")
     vb = idx.func(RET + "._validate_block")
-    if not calls_in_func(vb, "set_hashes"):
-        raise AnchorVanished("Retrieve._validate_block no longer calls set_hashes")
+    if not _TreeUpdates(idx, get_callgraph(idx)).reaches(vb):
+        raise AnchorVanished("Retrieve._validate_block no longer calls set_hashes (neither itself nor through a helper)")
